@@ -660,6 +660,20 @@ Proof.
     split; [exact Ewa | apply stable_is_ex; exact Sa].
 Qed.
 
+Lemma finish_success_G : forall p o w4, op_raised o = false -> FI w4 -> EI w4 ->
+  In p (c_built (w_new w4)) -> isfile (w_fs w4) p = true ->
+  let w5 := set_new (cache_with (w_new w4) (files_set (c_files (w_new w4)) p (Some o)) (c_subs (w_new w4))
+                                (c_dirs (w_new w4)) (c_built (w_new w4))) w4 in
+  FI w5 /\ built_le w4 w5 /\ EI w5 /\ stable_ex p w4 w5.
+Proof.
+  intros p o w4 Hra Fw Ew Hb Hfile w5.
+  assert (HF : pres (FP (Some p)) (new_finish_building_file p o)) by auto with pres.
+  assert (Tw : tcond (Some p) w4) by (intros q Y; inversion Y; subst; exact Hb).
+  destruct (HF w4 w5 (inl tt) eq_refl Fw Tw) as [Fw' L].
+  destruct (finish_E w4 p o Ew Hb) as [Ew' Sx]; [rewrite Hra; exact Hfile|].
+  split; [exact Fw'|]. split; [exact L|]. split; [exact Ew' | exact Sx].
+Qed.
+
 Lemma bf_tail_none_G : forall p c fname sargs skw fn w1 w' r,
   (forall sa skw', pres (GP (Some p)) (fn p sa skw')) ->
   bf_tail p c fname sargs skw fn (w1, inl None) = (w', r) ->
@@ -695,16 +709,12 @@ Proof.
         destruct cmp;
           try (match type of H with (match ?Z with _ => _ end) = _ => destruct Z as [wr [u|e']] eqn:E5 end;
                inversion H; subst; eapply Fail; eauto; fail).
-        all: match type of H with (let (_, _) := ?Z in _) = _ => destruct Z as [w5 r5] eqn:E5 end;
-             inversion H; subst w5; clear H;
-             unfold new_finish_building_file, modify in E5; inversion E5; subst w' r5; clear E5;
+        all: unfold new_finish_building_file, modify in H; inversion H; subst w' r; clear H;
              assert (Hfile : isfile (w_fs w4) p = true) by (eapply noneable_cmp_file; [exact E4 | discriminate]);
              match goal with |- FI (set_new (cache_with _ (files_set _ _ (Some ?o)) _ _ _) _) /\ _ =>
-               destruct (finish_E w4 p o Ew4 (L14 p Hb1) Hfile) as [Ew' Sx];
-               assert (HF : pres (FP (Some p)) (new_finish_building_file p o)) by auto with pres;
-               destruct (HF w4 _ (inl tt) eq_refl Fw4 (fun q Y => match Y in (_ = s) return (match s with Some q' => In q' (c_built (w_new w4)) | None => True end) with eq_refl => L14 p Hb1 end)) as [Fw' L5]
+               destruct (finish_success_G p o w4 eq_refl Fw4 Ew4 (L14 p Hb1) Hfile) as (A1 & A2 & A3 & A4)
              end;
-             (split; [exact Fw'|]); (split; [eapply built_le_trans; eauto|]); (split; [exact Ew' | eapply stable_then_ex; eauto]).
+             (split; [exact A1|]); (split; [eapply built_le_trans; eauto|]); (split; [exact A3 | eapply stable_then_ex; eauto]).
       * pose proof (G_view (Some p) _ _ (noneable_cmp_view p c) _ _ _ E4) as R34. change (GR (Some p) w3 w4) in R34.
         assert (Tw3 : tcond (Some p) w3) by (intros q Y; inversion Y; subst; exact Hb3).
         assert (Gw3 : gcond (Some p) w3) by (intros q Y; inversion Y; subst; exact Hp3).
